@@ -28,6 +28,7 @@ T3_table == <<"table", "table", "queue">>
 T3_port == <<"port", "port", "flow">>
 T3_queue == <<"queue", "queue", "table">>
 X3 == <<1, 2, 1>>
+M3_222 == <<2, 2, 2>>
 M3_322 == <<3, 2, 2>>
 M3_433 == <<4, 3, 3>>
 G3_211 == <<2, 1, 1>>
